@@ -11,4 +11,4 @@ for d in /tmp/mut/out/C*; do
     [ -s /tmp/mut/confirm/$id-m$n.json ] && continue
     echo "$d $n $id"
   done
-done | xargs -P 4 -L 1 sh -c 'python3 /verif/tools/mutant.py confirm $0 $1 /tmp/mutv-$2-$1 2>&1 | grep -v "^WARNING" > /tmp/mut/confirm/$2-m$1.json.tmp; mv /tmp/mut/confirm/$2-m$1.json.tmp /tmp/mut/confirm/$2-m$1.json; git -C /repo worktree remove --force /tmp/mutv-$2-$1 2>/dev/null; true'
+done | xargs -P 6 -L 1 sh -c 'python3 /verif/tools/mutant.py confirm $0 $1 /tmp/mutv-$2-$1 2>&1 | grep -v "^WARNING" > /tmp/mut/confirm/$2-m$1.json.tmp; mv /tmp/mut/confirm/$2-m$1.json.tmp /tmp/mut/confirm/$2-m$1.json; git -C /repo worktree remove --force /tmp/mutv-$2-$1 2>/dev/null; true'
